@@ -26,6 +26,7 @@ struct A15Plan
   int nvals;
   A15Value vals[A15_MAXVALS];
   int cut_choice;         // resolved against the written size at run time (mode 3: write/read pattern bits)
+  unsigned flush_mask;    // bit i: flush() is called on the stream after value i was written (bit 15: once more when all are written)
   int reader_at;          // mode 3: the reader is created after this many values have been written
   int capacity_choice;    // mode 2: 0 needed-1, 1 needed, 2 needed+1, 3 random
   int capacity_random;
